@@ -66,10 +66,13 @@ func runC08(p *core.Program, r *core.Report) {
 	r.Rule("C08.pairs", "Write~Read of every step, service and record codec agree on the layout on every joint path (versions, optional sections)", 18)
 	r.Rule("C08.fields", "each written field is restored into the same field; presence conditions imply the omitted field is default", 16)
 	r.Rule("C08.countlink", "repetitions are driven by the count written", 16)
+	r.Rule("C08.fresh", "every step/service object the factories hand out is freshly allocated", 10)
 	r.Rule("C08.selfdelim", "no step/record reader consumes input up to end-of-stream (no Available()-driven reads): steps concatenate", 14)
 	r.Rule("C08.defaulting", "TxRecord.Read mutates decoded fields only by the sanctioned ErrorLevel defaulting", 1)
 	checkRegistry(p, r, "C08.registry", "lang/step", "CreateStep", "Step", "GetStepType")
 	checkRegistry(p, r, "C08.registry", "lang/service", "CreateService", "Service", "GetServiceType")
+	checkFactoryFresh(p, r, "C08.fresh", "lang/step", "CreateStep")
+	checkFactoryFresh(p, r, "C08.fresh", "lang/service", "CreateService")
 	pairs, _ := discoverPairs(p, x, []string{"lang/step", "lang/service"})
 	packPairs, _ := discoverPairs(p, x, []string{"lang/pack"})
 	for _, cp := range packPairs {
